@@ -280,11 +280,12 @@ func runRound(sp spec, pre []op, adders [][]op, jitter int) []rcall {
 	done := make(chan struct{})
 	go func() { wg.Wait(); close(done) }()
 	atomic.StoreInt32(&start, 1)
-	t := time.NewTimer(hangTimeout)
+	t := time.NewTimer(hangTimeout())
 	defer t.Stop()
 	select {
 	case <-done:
 	case <-t.C:
+		noteHang()
 		qu.release()
 		return nil
 	}
